@@ -122,7 +122,8 @@ pub fn facts(v: &Value, registry: &TrustAnchorRegistry, transcript: &Value) -> S
     let x5v = ia.and_then(|a| a.get(1)).and_then(|u| u.as_map()).and_then(|m| m.iter().find(|(k, _)| k.as_integer().map(i128::from) == Some(33)).map(|(_, v)| v.clone()));
     let chain = x5v.clone().and_then(|x| X5Chain::from_cbor(x).ok());
     let nsv = d.and_then(|d| mget(d, "issuerSigned")).and_then(|i| mget(i, "nameSpaces"));
-    let core = nsv.and_then(|n| mget(n, NS)).is_some();
+    // a namespace the reader reports (core or AAMVA) is present
+    let core = nsv.and_then(|n| mget(n, NS)).is_some() || nsv.and_then(|n| mget(n, "org.iso.18013.5.1.aamva")).is_some();
     let chain_errs = chain.as_ref().map(|c| ValidationRuleset::Mdl.validate(c, registry).errors.len()).unwrap_or(0);
     // the key of the FIRST certificate of the x5chain, parsed with x509-cert directly (not through the library's X5Chain)
     let first_der: Option<Vec<u8>> = match &x5v { Some(Value::Bytes(b)) => Some(b.clone()), Some(Value::Array(a)) => a.first().and_then(|x| x.as_bytes().cloned()), _ => None };
